@@ -115,3 +115,7 @@ OBLIGATIONS = FT.fault_obligations('c06', 'C06', which=['down-path']) + [
 
 from harness.nsrun import ns_fault_obligations, nsfaulted  # noqa: E402
 OBLIGATIONS += ns_fault_obligations('c06', 'C06', ['down-path'])
+
+# C06.5: the temporary name itself (translated from the source into SMT-LIB, decided by cvc5)
+from harness.tempname import OB_TEMPNAME  # noqa: E402
+SMT_OBLIGATIONS = [dict(OB_TEMPNAME, id='C06.5')]
